@@ -11,6 +11,7 @@ import (
 	"errors"
 	"fmt"
 	"testing"
+	"time"
 
 	"cedarsim/kernel"
 	"cedarsim/refcodec"
@@ -343,6 +344,144 @@ func runHistory(s *kernel.Sim, c *scen.Case) {
 	}
 }
 
+// runRekey: a key is installed again on a live stream pair (the same key, or another one)
+// after some protected traffic. Whatever the implementation does with its IV and counters,
+// no two frames may be encrypted with the same key stream: for known plaintexts p1, p2 a
+// repeated (key, nonce) shows as c1 xor c2 == p1 xor p2, which is checked directly on the
+// wire bytes for every pair of frames under the same key - independent of the frame format.
+func runRekey(s *kernel.Sim, c *scen.Case) {
+	t := s.T
+	ctx := context.Background()
+	net := simnet.New(s, simnet.DrawConfig(t))
+	a, b := net.Pipe("A", "B", "10.0.0.1:1000", "10.0.0.2:9618")
+	a.Tap()
+	sa, sb := stream.NewStream(a), stream.NewStream(b)
+	key1 := t.Bytes("key1", 32)
+	key2 := key1
+	same := t.Chance("same-key", 2, 3)
+	if !same {
+		key2 = t.Bytes("key2", 32)
+	}
+	epochs := 2 + t.Choose("epochs", 2)
+	per := 1 + t.Choose("per-epoch", 3)
+	type sentFrame struct {
+		key   []byte
+		plain []byte
+	}
+	var plan []sentFrame
+	var errs []string
+	keyOf := func(e int) []byte {
+		if e%2 == 0 {
+			return key1
+		}
+		return key2
+	}
+	for e := 0; e < epochs; e++ {
+		for i := 0; i < per; i++ {
+			plan = append(plan, sentFrame{key: keyOf(e), plain: t.Bytes("plain", 48+t.Choose("len", 200))})
+		}
+	}
+	barrier := 0 // messages fully received so far (the receiver re-installs the key in step)
+	s.Go("A", func() {
+		k := 0
+		for e := 0; e < epochs; e++ {
+			for barrier < k && !s.Ended() { // wait until B has read the previous epoch
+				s.Sleep("A", time.Millisecond)
+			}
+			if err := sa.SetSymmetricKey(keyOf(e)); err != nil {
+				errs = append(errs, err.Error())
+				return
+			}
+			for i := 0; i < per; i++ {
+				if err := sa.SendMessage(ctx, plan[k].plain); err != nil {
+					if !errors.Is(err, simnet.ErrSimEnded) {
+						errs = append(errs, fmt.Sprintf("send %d: %v", k, err))
+					}
+					return
+				}
+				k++
+			}
+		}
+	})
+	s.Go("B", func() {
+		k := 0
+		for e := 0; e < epochs; e++ {
+			if err := sb.SetSymmetricKey(keyOf(e)); err != nil {
+				errs = append(errs, err.Error())
+				return
+			}
+			for i := 0; i < per; i++ {
+				got, err := sb.ReceiveCompleteMessage(ctx)
+				if err != nil {
+					if !errors.Is(err, simnet.ErrSimEnded) {
+						errs = append(errs, fmt.Sprintf("recv %d: %v", k, err))
+					}
+					return
+				}
+				if !bytes.Equal(got, plan[k].plain) {
+					errs = append(errs, fmt.Sprintf("recv %d: payload differs", k))
+					return
+				}
+				k++
+				barrier = k
+			}
+		}
+	})
+	s.Run()
+	defer func() { a.CloseQuiet(); b.CloseQuiet() }()
+	for _, tk := range s.Tasks() {
+		if tk.Panic != nil {
+			s.Violate("panic", "rekey", fmt.Sprintf("task %s: %v\n%s", tk.Name, tk.Panic, tk.Stack))
+			return
+		}
+	}
+	if len(errs) > 0 {
+		// installing a key again on a live pair is not promised to work; it must only never reuse a nonce
+		s.Probe("rekey-exchange-did-not-complete")
+	} else {
+		s.Probe("rekey-exchange-completed")
+	}
+	frames, _ := refcodec.ParseFrames(a.SentBytes())
+	if len(frames) > len(plan) {
+		frames = frames[:len(plan)]
+	}
+	xorMatch := func(c1, c2, p1, p2 []byte) bool {
+		n := len(c1)
+		for _, l := range []int{len(c2), len(p1), len(p2)} {
+			if l < n {
+				n = l
+			}
+		}
+		if n < 32 {
+			return false
+		}
+		for i := 0; i < n; i++ {
+			if c1[i]^c2[i] != p1[i]^p2[i] {
+				return false
+			}
+		}
+		return true
+	}
+	for i := 0; i < len(frames); i++ {
+		for j := i + 1; j < len(frames); j++ {
+			if !bytes.Equal(plan[i].key, plan[j].key) {
+				continue
+			}
+			// a frame that carries an IV has it in front of the ciphertext: try both alignments
+			for _, oi := range []int{0, 16} {
+				for _, oj := range []int{0, 16} {
+					if len(frames[i].Payload) > oi+32 && len(frames[j].Payload) > oj+32 &&
+						xorMatch(frames[i].Payload[oi:], frames[j].Payload[oj:], plan[i].plain, plan[j].plain) {
+						s.Violate("nonce-reuse", fmt.Sprintf("rekey/same-key=%v", same), fmt.Sprintf("frames %d and %d of one direction were encrypted under the same key with the same key stream (c1 xor c2 == p1 xor p2 over >= 32 bytes): the key was installed again after frame %d and the nonce sequence restarted", i, j, (j/per)*per-1))
+						return
+					}
+				}
+			}
+		}
+	}
+	s.Probe("rekey-no-keystream-reuse")
+}
+
 // runRefSender: frames built by the reference codec are fed to the real receiver.
 func runRefSender(s *kernel.Sim, c *scen.Case) {
 	t := s.T
@@ -618,6 +757,13 @@ var scenarios = []*scen.Scenario{
 			}
 		}
 	}, Run: runHistory},
+	{Name: "rekey", Weight: 1, Gen: func(g *scen.Gen) {
+		for i := uint64(0); ; i++ {
+			if !g.Emit(scen.Case{Seed: g.Seed*1_000_033 + i}) {
+				return
+			}
+		}
+	}, Run: runRekey},
 	{Name: "ref-sender", Weight: 1, Gen: func(g *scen.Gen) {
 		for i := uint64(0); ; i++ {
 			if !g.Emit(scen.Case{Seed: g.Seed*2_000_003 + i, Params: scen.Params(params{Kind: "ref-sender"})}) {
